@@ -1,0 +1,30 @@
+//go:build verif
+
+package proto
+
+import . "github.com/protolambda/zrnt/eth2/forkchoice"
+
+// Read-only accessors for the verification harness (built only with -tags verif).
+
+// VerifNodes returns a copy of the node table and the index offset of its first entry.
+func (pr *ProtoArray) VerifNodes() (nodes []ProtoNode, indexOffset NodeIndex) {
+	nodes = make([]ProtoNode, len(pr.nodes))
+	copy(nodes, pr.nodes)
+	return nodes, pr.indexOffset
+}
+
+// VerifBlockSlots returns a copy of the first-known-slot table.
+func (pr *ProtoArray) VerifBlockSlots() map[Root]Slot {
+	out := make(map[Root]Slot, len(pr.blockSlots))
+	for k, v := range pr.blockSlots {
+		out[k] = v
+	}
+	return out
+}
+
+// VerifVotes returns a copy of the vote trackers.
+func (st *ProtoVoteStore) VerifVotes() []VoteTracker {
+	out := make([]VoteTracker, len(st.votes))
+	copy(out, st.votes)
+	return out
+}
